@@ -495,7 +495,12 @@ func (bc *boundsCtx) defFacts(f *factSet, roots []ssa.Value) {
 					// facts that hold when control leaves the predecessor of this edge
 					ef := &factSet{cs: append([]cstr{}, f.cs...), nes: append([]neq{}, f.nes...)}
 					if ei < len(x.Block().Preds) && depth < 3 {
-						bc.edgeFacts(ef, x.Block().Preds[ei])
+						pred := x.Block().Preds[ei]
+						bc.edgeFacts(ef, pred)
+						// the condition of the very edge pred -> phi block
+						if iff, ok := pred.Instrs[len(pred.Instrs)-1].(*ssa.If); ok && len(pred.Succs) == 2 && pred.Succs[0] != pred.Succs[1] {
+							bc.addCond(ef, iff.Cond, pred.Succs[0] == x.Block(), 0)
+						}
 					}
 					// T - (n+off) <= d[T][n] - off
 					if b := boundOf(ef, T, n); b >= bInf {
@@ -676,6 +681,7 @@ func (bc *boundsCtx) reflKey(v ssa.Value) string {
 func checkBoundsOpt(p *Prog, fn *ssa.Function, axioms func(bc *boundsCtx, f *factSet, ins ssa.Instruction), withReflectFields bool) []BoundSite {
 	bc := newBoundsCtx(p, fn)
 	reach := reachableBlocks(fn)
+	callerLens := callerLenFacts(p, fn, bc)
 	var out []BoundSite
 	for _, b := range fn.Blocks {
 		if !reach[b] || b == fn.Recover {
@@ -709,6 +715,9 @@ func checkBoundsOpt(p *Prog, fn *ssa.Function, axioms func(bc *boundsCtx, f *fac
 			}
 			f := &factSet{}
 			bc.edgeFacts(f, b)
+			for ln, lb := range callerLens {
+				f.le("", 0, ln, 0, -lb) // lb <= len(param): holds at every call site of this unexported function
+			}
 			roots := []ssa.Value{base}
 			for _, v := range []ssa.Value{idxV, lo, hi} {
 				if v != nil {
@@ -952,4 +961,90 @@ func (bc *boundsCtx) maxIncrement(e ssa.Value, ph *ssa.Phi, depth int) (int64, b
 
 func sortSites(p *Prog, s []BoundSite) {
 	sort.Slice(s, func(i, j int) bool { return instrPos(s[i].Ins) < instrPos(s[j].Ins) })
+}
+
+
+// callerLenFacts: preconditions an unexported function inherits from its callers. For every
+// slice/string parameter, the largest k such that len(argument) >= k is provable at EVERY call
+// site (all call sites must be static calls inside the repository; a function whose value is
+// taken, or an exported one, gets nothing). This is what lets "if len(xs) > 0 { helper(xs) }"
+// discharge xs[0] inside the extracted helper.
+func callerLenFacts(p *Prog, fn *ssa.Function, bc *boundsCtx) map[string]int64 {
+	out := map[string]int64{}
+	if fn.Object() == nil || fn.Object().Exported() || fn.Parent() != nil {
+		return out
+	}
+	type site struct {
+		caller *ssa.Function
+		call   ssa.CallInstruction
+	}
+	var sites []site
+	for _, g := range p.Funcs {
+		for _, b := range g.Blocks {
+			for _, ins := range b.Instrs {
+				if call, ok := ins.(ssa.CallInstruction); ok {
+					if staticCallee(call.Common()) == fn {
+						sites = append(sites, site{g, call})
+					}
+				}
+				// function value taken (stored, passed): unknown callers
+				for _, op := range ins.Operands(nil) {
+					if op != nil && *op == ssa.Value(fn) {
+						if call, ok := ins.(ssa.CallInstruction); !ok || call.Common().Value != ssa.Value(fn) {
+							return out
+						}
+					}
+				}
+			}
+		}
+	}
+	if len(sites) == 0 {
+		return out
+	}
+	for pi, prm := range fn.Params {
+		switch prm.Type().Underlying().(type) {
+		case *types.Slice:
+		case *types.Basic:
+			if bt := prm.Type().Underlying().(*types.Basic); bt.Info()&types.IsString == 0 {
+				continue
+			}
+		default:
+			continue
+		}
+		best := int64(1 << 30)
+		for _, st := range sites {
+			args := st.call.Common().Args
+			if pi >= len(args) {
+				best = 0
+				break
+			}
+			cbc := newBoundsCtx(p, st.caller)
+			f := &factSet{}
+			cbc.edgeFacts(f, st.call.Block())
+			cbc.defFacts(f, []ssa.Value{args[pi]})
+			ln, lo := cbc.lenTerm(args[pi])
+			var lb int64
+			if ln == "" {
+				lb = lo
+			} else {
+				f.le("", 0, ln, 0, 0)
+				b := boundOf(f, "", ln) // 0 - len <= b  =>  len >= -b
+				if b >= bInf {
+					lb = 0
+				} else {
+					lb = -b - lo
+				}
+			}
+			if lb < best {
+				best = lb
+			}
+		}
+		if best > 0 && best < (1<<30) {
+			ln, _ := bc.lenTerm(prm)
+			if ln != "" {
+				out[ln] = best
+			}
+		}
+	}
+	return out
 }
